@@ -449,8 +449,10 @@ class Tokenizer(object):
 # HACK: I couldn't get the parse() thing to work so I'm just not
 #       going to parse whitespace after EscapeSequences that end in
 #       non-letter characters as a half-assed solution.
-                        if token[-1] in encoding.stringletters():
-                            # Absorb following whitespace
+                        if next_code in (CC_LETTER, CC_SPACE):
+                            # Absorb following whitespace after a control
+                            # word (letters as defined by the current
+                            # category codes) and after a control space
                             self.state = STATE_S
 
                     break
